@@ -1,0 +1,25 @@
+# -*- coding: utf-8 -*-
+"""Verification hooks (off unless the environment variable NESSAI_VERIF=1).
+
+When enabled, instrumented call sites hand local values that cannot be
+observed from outside (e.g. the acceptance mask of a rejection-sampling batch)
+to a callback registered by a test harness.  With the variable unset
+``ENABLED`` is False and every call site reduces to one attribute test.
+"""
+import os
+
+ENABLED = os.environ.get("NESSAI_VERIF") == "1"
+
+_callback = None
+
+
+def set_callback(func):
+    """Register (or clear, with None) the function that receives events."""
+    global _callback
+    _callback = func
+
+
+def emit(name, **data):
+    """Hand an event to the registered callback, if any."""
+    if _callback is not None:
+        _callback(name, data)
